@@ -3,14 +3,15 @@ computes (DESIGN.md section 3, C02: [T3] wf monitor + [T2] polynomial value
 equality after every prefix of a history).
 
 Histories = sequences of public operations (menu in `_tree_hist.fixed_menu`
-plus remove_ind_/project/restore_ind_ for every index of the network), applied
-to a complete tree that starts in one of six prepared cache states.  After
-EVERY applied step, on a deep snapshot made by the harness:
+plus remove_ind_ / remove_ind_(project=) / restore_ind_ for every index of the
+network), applied to a complete tree that starts in one of six prepared cache
+states.  After EVERY applied step, on a deep snapshot made by the harness:
 
  (1) `tree.contract(polynomial arrays)` equals `symval.dense_einsum` of the
      ORIGINAL network (with the indices projected so far fixed) - value, shape
      and axis order, as polynomials, i.e. for all array values of that shape;
-     also for every option set that has a compiled contractor cached;
+     also for every option set that has a compiled contractor cached; the
+     result returned by a `contract` step of the history itself is compared too;
  (2) the representation invariant wf(tree): present cached legs / involved /
      size / flops equal the from-scratch values; root inds == output order
      minus sliced; cached inds are permutations of the legs; cached recipes
@@ -23,8 +24,6 @@ EVERY applied step, on a deep snapshot made by the harness:
 
 from __future__ import annotations
 
-import random
-import time
 import warnings
 
 from ..common import Report, pmap, seed, deadline
@@ -32,8 +31,6 @@ from .. import symval
 from . import _tree_hist as H
 
 MODULE = "vt.props.c02_bounded"
-
-_CTX = {}  # set in the parent before forking
 
 
 class Checker:
@@ -50,12 +47,12 @@ class Checker:
         case = env.case
         probs = []
         if op[0] == "contract":
-            self.fire("value(contract op)")
+            self.fire("value(contract step of the history)")
             ref = env.reference(st.proj)
             if not symval.equal(ret, ref):
                 d = symval.first_diff(ret, ref) or ""
                 probs.append("contract returned a " + ("wrong shape" if d.startswith("shape") else "wrong value"))
-        S = H.clone(st.tree)
+        S, raw_fp = H.clone_fp(st.tree)
         self.fire("wf.structure")
         ps = H.structure_problems(S)
         if not ps:
@@ -86,7 +83,7 @@ class Checker:
         # the value check is a deterministic function of the complete state of
         # the snapshot: an identical state that already contracted to the right
         # value (same projections) need not be contracted again
-        fp = (H.fingerprint(S), tuple(sorted(st.proj.items())))
+        fp = (raw_fp, tuple(sorted(st.proj.items())))
         if fp in self.value_ok:
             self.fire("value(snapshot, identical state already checked)")
         else:
@@ -101,217 +98,19 @@ class Checker:
         return probs
 
 
-def signature(case, prep, hist, prob):
-    return f"C02 history {H.hist_label(hist)} from state '{prep}' on {H.case_label(case)}: {H.short(prob)}"
-
-
-def make_case(case, prep, hist):
-    return {"net": H.case_json(case), "prep": prep, "history": [[o[0], o[1]] for o in hist]}
-
-
-# --------------------------------------------------------------------------
-# exhaustive histories (length <= L) from one (case, prepared state, first op)
-# --------------------------------------------------------------------------
-def _prepare(case, prep, env):
-    st = H.State(H.build_tree(case))
-    for op in H.resolve_prep(H.PREPS[prep], case):
-        status, payload = H.apply_op(st, op, env)
-        if status != "ok":
-            return None, f"preparation step {H.op_label(op)}: {status} {payload}"
-    return st, None
-
-
-def work_exhaustive(item):
-    """All histories of length <= depth from one (case, prepared state); the
-    first operations are item[2] (a list of menu positions)."""
-    ci, prep, firsts, depth = item
-    ctx = _CTX
-    case = ctx["cases"][ci]
-    if time.time() > ctx["deadline"]:
-        return {"n": 0, "timeout": 1}
-    env = H.Env(case, poly=True)
-    chk = Checker()
-    menu = H.menu_for(case)
-    out = {"n": 0, "nt": [], "viol": [], "samples": [], "skipped": 0, "timeout": 0}
-    st0, err = _prepare(case, prep, env)
-    if st0 is None:
-        out["viol"].append((signature(case, prep, [], err), make_case(case, prep, [])))
-        out["fires"] = chk.fires
-        return out
-
-    def rec(st, hist, idxs, d):
-        choices = firsts if not hist else range(len(menu))
-        for j in choices:
-            if len(out["viol"]) >= 6:
-                return
-            if time.time() > ctx["deadline"]:
-                out["timeout"] = 1
-                return
-            op = menu[j]
-            st2 = st.fork()
-            status, payload = H.apply_op(st2, op, env)
-            out["n"] += 1
-            h2 = hist + [op]
-            if status == "skipped":
-                out["skipped"] += 1
-                continue
-            if status == "error":
-                out["viol"].append((signature(case, prep, h2, payload), make_case(case, prep, h2)))
-                continue
-            probs = chk(st2, env, op, payload)
-            out["nt"].append(idxs + [j])
-            if probs:
-                out["viol"].append((signature(case, prep, h2, probs[0]), make_case(case, prep, h2)))
-                continue
-            if d + 1 < depth:
-                rec(st2, h2, idxs + [j], d + 1)
-
-    rec(st0, [], [], 0)
-    if prep == "fresh" and 0 in firsts:
-        out["samples"].append({"network": H.case_label(case), "state": prep,
-                               "history": H.hist_label([menu[0], menu[min(5, len(menu) - 1)]])})
-    out["fires"] = chk.fires
-    return out
-
-
-# --------------------------------------------------------------------------
-# seeded samples of longer histories on larger random networks
-# --------------------------------------------------------------------------
-def work_sampled(item):
-    k, lo, hi = item
-    ctx = _CTX
-    if time.time() > ctx["deadline"]:
-        return {"n": 0, "timeout": 1}
-    rng = random.Random(1000003 * seed() + 17 * k + 5)
-    case = H.random_case(rng, nmin=ctx["nmin"], nmax=ctx["nmax"], max_space=ctx["max_space"])
-    prep = rng.choice(H.PREP_ORDER)
-    length = rng.randint(lo, hi)
-    hist = [H.sample_op(rng, case) for _ in range(length)]
-    chk = Checker()
-    env = H.Env(case, poly=True)
-    probs, applied, skipped = H.run_history(case, H.PREPS[prep], hist, chk, env=env)
-    out = {"n": applied + skipped, "hist": 1, "nt": [], "viol": [], "samples": [], "skipped": skipped, "timeout": 0,
-           "fires": chk.fires}
-    if applied:
-        out["nt"].append(["s", k])
-    if probs:
-        kk, p = probs[0]
-        h = hist[: kk + 1] if kk >= 0 else []
-        # drop the skipped steps of the prefix? keep them: replay re-executes the same list
-        out["viol"].append((signature(case, prep, h, p), make_case(case, prep, h)))
-    if k < 2:
-        out["samples"].append({"network": H.case_label(case), "state": prep, "history": H.hist_label(hist)})
-    return out
-
-
-# --------------------------------------------------------------------------
-def _aggregate(rep, results, tag, viols, stats):
-    for status, r in results:
-        if status == "crash":
-            rep.crash(f"C02 worker crashed ({tag}): {r[:600]}")
-            continue
-        stats["timeout"] += r.get("timeout", 0)
-        if not r.get("n"):
-            continue
-        rep.count(r["n"])
-        stats["steps"] += r["n"]
-        stats["skipped"] += r.get("skipped", 0)
-        for key in r.get("nt", ()):
-            rep.nontrivial_case([tag, r.get("id")] + list(key))
-        for s in r.get("samples", ()):
-            stats["samples"].append(s)
-        for k, v in r.get("fires", {}).items():
-            rep.fired(k, v)
-        viols.extend(r.get("viol", ()))
-
-
 def run_bounded(rep: Report, tier: str) -> None:
-    global _CTX
-    quick = tier == "quick"
-    t_end = deadline(tier, 75, 1500)
-    cases = H.base_cases(seed(), sizes="small")
     rep.rule = (
         "a case = (network, sizes, initial tree, prepared cache state, history); histories are enumerated exhaustively "
-        "over the concrete operation menu (38 fixed operations + slice/project/restore of every index) up to the stated "
-        "length, longer ones are seeded samples with parameters drawn from the full menus; a case is non-trivial when its "
-        "last operation was applicable (did not raise as 'not applicable') so that the checks ran after it; distinct = "
-        "distinct (network, tree, state, operation sequence)"
+        "over the concrete operation menu (fixed operations + slice/project/restore of every index of the network) up "
+        "to the stated length, longer ones are seeded samples with parameters drawn from the full menus; a case is "
+        "non-trivial when its last operation was applicable (did not raise as 'not applicable') so that the checks "
+        "ran after it; distinct = distinct (network, tree, state, operation sequence)"
     )
-    viols = []
-    stats = {"steps": 0, "skipped": 0, "timeout": 0, "samples": []}
-
-    # ---- exhaustive, length <= 2 on the base set --------------------------
-    items = []
-    for ci, case in enumerate(cases):
-        m = len(H.menu_for(case))
-        for prep in H.PREP_ORDER:
-            # two work items per (pair, state): identical states reached by
-            # different histories are contracted once per item
-            items.append((ci, prep, list(range(0, m, 2)), 2))
-            items.append((ci, prep, list(range(1, m, 2)), 2))
-    _CTX = {"cases": cases, "deadline": t_end}
-    n0 = rep.evaluations
-    res = list(pmap(_tagged_exh, items, chunk=1))
-    _aggregate(rep, res, "exh2", viols, stats)
-    done = rep.evaluations - n0
-    t_out = stats["timeout"]
-    rep.scope(
-        f"all histories of length <= 2 over the menu x {len(cases)} (network, tree) pairs x {len(H.PREP_ORDER)} prepared cache states",
-        done, exhaustive=(t_out == 0),
-        bound="3-5 tensors, <= 6 indices, sizes 1-3; menu = 38 fixed ops + 3 per index" + ("" if not t_out else f"; {t_out} work items cut by the time budget"),
+    viols = H.run_histories(
+        rep, tier, pid="C02", module=MODULE, checker=Checker, sizes="small", with_write=False,
+        quick_budget_s=150, nsamp_quick=320, nsamp_thorough=6000, seed_value=seed(), pmap=pmap, deadline=deadline,
     )
-
-    # ---- thorough: length <= 3 on a sub-base ------------------------------
-    if not quick:
-        sub = [ci for ci in range(len(cases)) if ci % 4 == 0]
-        preps3 = ["fresh", "sorted+contracted", "annealed"]
-        items = []
-        for ci in sub:
-            m = len(H.menu_for(cases[ci]))
-            for prep in preps3:
-                for i1 in range(m):
-                    items.append((ci, prep, [i1], 3))
-        stats["timeout"] = 0
-        n0 = rep.evaluations
-        res = list(pmap(_tagged_exh, items, chunk=1))
-        _aggregate(rep, res, "exh3", viols, stats)
-        rep.scope(
-            f"all histories of length <= 3 over the menu x {len(sub)} (network, tree) pairs x {len(preps3)} prepared states",
-            rep.evaluations - n0, exhaustive=(stats["timeout"] == 0),
-            bound="every 4th pair of the base set" + ("" if not stats["timeout"] else f"; {stats['timeout']} work items cut by the time budget"),
-        )
-
-    # ---- seeded samples of longer histories -------------------------------
-    nsamp = 320 if quick else 6000
-    _CTX = {"cases": cases, "deadline": t_end + (10 if quick else 120), "nmin": 6, "nmax": 10, "max_space": 1024 if quick else 4096}
-    items = [(k, 3, 6) for k in range(nsamp)]
-    stats["timeout"] = 0
-    n0 = rep.evaluations
-    res = list(pmap(_tagged_samp, items, chunk=2))
-    _aggregate(rep, res, "samp", viols, stats)
-    rep.scope(
-        f"seeded sample: {nsamp} histories of length 3-6 on random networks (cotengra.utils.rand_equation, 6-10 tensors), random tree, random prepared state",
-        rep.evaluations - n0, exhaustive=False,
-        bound=f"sample of {nsamp}; index space <= {_CTX['max_space']} assignments" + ("" if not stats["timeout"] else f"; {stats['timeout']} cut by the time budget"),
-    )
-
-    for s in sorted(stats["samples"], key=lambda s: (s["network"], s["history"]))[:6]:
-        rep.sample(s)
-    rep.extra["history_steps_executed"] = stats["steps"]
-    rep.extra["steps_skipped_not_applicable"] = stats["skipped"]
-
-    # ---- violations: shortest histories first, at most 5 -------------------
-    seen = set()
-    viols.sort(key=lambda v: (len(v[1]["history"]), len(v[0]), v[0]))
-    for sig, case in viols:
-        if sig in seen:
-            continue
-        seen.add(sig)
-        rep.violation(sig, {"module": MODULE, "case": case})
-        if len(seen) >= 5:
-            break
-    rep.extra["violating_histories_found"] = len(viols)
-
+    H.report_violations(rep, MODULE, viols)
     rep.explanation += (
         "C02 bounded: the real ContractionTree operations are executed along histories; after every applied step a deep "
         "snapshot (harness-side, so checking never populates the caches of the tree under test) is (1) contracted on "
@@ -321,32 +120,18 @@ def run_bounded(rep: Report, tier: str) -> None:
         "recipes vs fresh recomputation, compiled contractors, preprocessing, slicing bookkeeping, completeness, "
         "copy independence). Bounds: exhaustive only up to the stated history length on the stated base set; longer "
         "histories and larger networks are seeded samples. Operations that raise because they are not applicable "
-        "(restore of an unsliced index, slice search running out of indices) are skipped and the state reverted. "
+        "(restore of an unsliced index, slice search raising because it ran out of indices) are skipped and the "
+        "state reverted. "
     )
-    rep.assumptions.append("parallel=False/None everywhere; seeds fixed; global `random` re-seeded before every operation (operations without a seed argument draw from it)")
-    rep.trusted_base.append("vt.symval (Poly arithmetic, dense_einsum), vt.props._tree_hist.Spec (from-scratch legs/size/flops), pickle round trip as deep copy")
+    rep.assumptions.append(
+        "parallel=False/None everywhere; seeds fixed; the global `random` generator is re-seeded before every "
+        "operation (operations without a seed argument draw from it)"
+    )
+    rep.trusted_base.append(
+        "vt.symval (Poly arithmetic, dense_einsum), vt.props._tree_hist.Spec (from-scratch legs/size/flops), "
+        "pickle round trip as the harness-side deep copy"
+    )
 
 
-def _tagged_exh(item):
-    r = work_exhaustive(item)
-    r["id"] = [item[0], item[1]]
-    return r
-
-
-def _tagged_samp(item):
-    r = work_sampled(item)
-    r["id"] = item[0]
-    return r
-
-
-# --------------------------------------------------------------------------
 def replay(case):
-    net = H.case_from_json(case["net"])
-    prep = case["prep"]
-    hist = [[o[0], dict(o[1])] for o in case["history"]]
-    chk = Checker()
-    probs, applied, skipped = H.run_history(net, H.PREPS[prep], hist, chk)
-    if probs:
-        k, p = probs[0]
-        return False, f"after step {k} of {H.hist_label(hist)} on {H.case_label(net)}: {p}"
-    return True, f"history {H.hist_label(hist)} on {H.case_label(net)} held ({applied} steps applied, {skipped} skipped)"
+    return H.replay_history(case, Checker)
